@@ -173,6 +173,61 @@ class Context(object):
         self.consulted = set()
         self.exhaustive = False
         self.t0 = time.time()
+        self.ctx_seen = {}
+        self.ctx_frozen = {}
+        self.freeze = os.environ.get('FLOWLINT_FREEZE')
+        try:
+            self.ctx_table = json.load(open(os.path.join(VERIF, 'flowlint', 'contexts.json')))
+        except (IOError, OSError, ValueError):
+            self.ctx_table = {}
+
+    # -- run contexts (see rules.context_obligations) ---------------------
+    def _ctx_key(self, qual, rule, inst):
+        k = '%s|%s|%s' % (qual, rule, inst)
+        n = self.ctx_seen.get(k, 0)
+        self.ctx_seen[k] = n + 1
+        return k if n == 0 else '%s#%d' % (k, n + 1)
+
+    def context_ob(self, fn, rule, inst, st, ctx):
+        k = self._ctx_key(fn.qual, rule, inst)
+        if self.freeze:
+            self.ctx_frozen[k] = ctx
+            return
+        if k not in self.ctx_table:
+            raise AnalysisError('no recorded run context for %s (flowlint/contexts.json is stale: tools/freeze_contexts.py)' % k)
+        want = self.ctx_table[k]
+        ok = any(ctx[r] == want.get(r) for r in ctx)
+        detail = ''
+        if not ok:
+            r = 'as written'
+            extra = [c for c in ctx[r] if c not in want[r]]
+            missing = [c for c in want[r] if c not in ctx[r]]
+            detail = 'documented to run %s; here it %s%s' % (
+                ' & '.join(want[r]) or 'unconditionally',
+                ('additionally runs only ' + ' & '.join(extra)) if extra else '',
+                ((' and ' if extra else '') + 'no longer depends on: ' + ' & '.join(missing)) if missing else '')
+        self.ob('CONTEXT', 'runs exactly when documented: %s' % inst, ok, fn.mod, st, fn.qual, detail=detail, key='%s|%s' % (rule, inst))
+
+    def context_returns(self, fn, rule, tables):
+        k = self._ctx_key(fn.qual, rule, '<returns>')
+        got = {r: {c: len(v) for c, v in t.items()} for r, t in tables.items()}
+        if self.freeze:
+            self.ctx_frozen[k] = got
+            return
+        if k not in self.ctx_table:
+            raise AnalysisError('no recorded return contexts for %s (flowlint/contexts.json is stale: tools/freeze_contexts.py)' % k)
+        want = self.ctx_table[k]
+        if any(got[r] == want.get(r) for r in got):
+            self.ob('CONTEXT', 'the function returns under the documented conditions only', True, fn.mod, fn.ast, fn.qual,
+                    key='%s|returns' % rule)
+            return
+        r = 'as written'
+        for c in sorted(set(got[r]) | set(want[r])):
+            if got[r].get(c, 0) != want[r].get(c, 0):
+                node = tables[r][c][0] if c in tables[r] else fn.ast
+                self.ob('CONTEXT', 'the function returns under the documented conditions only', False, fn.mod, node, fn.qual,
+                        detail='%d return(s) running %s; documented: %d' % (got[r].get(c, 0), c, want[r].get(c, 0)),
+                        key='%s|returns|%s' % (rule, c))
 
     # -- anchors ---------------------------------------------------------
     def fn(self, qual):
@@ -231,6 +286,17 @@ def load_known():
 def finish(cx, error=None):
     """Print verdict, write evidence and replay files, return the exit status."""
     pid = cx.pid
+    if cx.freeze:
+        # tools/freeze_contexts.py: record, do not judge
+        try:
+            cur = json.load(open(cx.freeze))
+        except (IOError, OSError, ValueError):
+            cur = {}
+        for k, v in cx.ctx_frozen.items():
+            if k in cur and cur[k] != v:
+                print('FREEZE-CONFLICT %s: %s vs %s' % (k, cur[k], v))
+            cur[k] = v
+        json.dump(cur, open(cx.freeze, 'w'), indent=0, sort_keys=True)
     known = [k for k in load_known().get('known', []) if k.get('property') == pid]
     known_keys = {k['key']: k for k in known}
     unlisted, listed = [], []
